@@ -144,6 +144,8 @@ type Sched struct {
 	Trace   []string
 	KeepTr  bool
 	Fine    bool // treat mutex ops as scheduling points
+	// SelectBranch: in coarse mode, a select with several ready cases is handed to the strategy instead of taking the first
+	SelectBranch bool
 	Panics  []string
 	OnPanic func(t *Thread, v any, stack string)
 	ended   bool
@@ -367,7 +369,9 @@ func (s *Sched) resched(t *Thread, exiting bool) {
 		// fast path: coarse mode, current thread can continue with a single option
 		if !exiting && !t.dead && !s.ended && s.Strat.Coarse() && s.Steps <= s.MaxStep {
 			opts = s.enabledFor(t, opts)
-			if len(opts) > 0 {
+			if len(opts) > 1 && s.SelectBranch {
+				opts = nil // several ready cases of one select: the strategy decides (slow path)
+			} else if len(opts) > 0 {
 				k, nThread, cur = 0, len(opts), 0
 				opts = opts[:1]
 			} else {
